@@ -925,13 +925,15 @@ class XPathToken(Token[ta.XPathTokenType]):
         """
         value = None
         first = True
-        for value in self.atomize_item(obj):
+        for item in self.atomize_item(obj):
             if not first:
+                if isinstance(obj, XPathNode) and obj.is_schema_node:
+                    break  # static evaluation: sample values of a list or of the members of a union
                 msg = "atomized value is a sequence of length greater than one"
                 raise self.error('XPTY0004', msg)
+            value = item
             first = False
-        else:
-            return value
+        return value
 
     def string_value(self, obj: Any) -> str:
         """
